@@ -420,7 +420,9 @@ func c14(c *Ctx) {
 				if strings.HasSuffix(cfgx.CalleeName(x), ".SetCurrentIdentifier") && len(rv) == 1 {
 					c.requireCross(site(x)+" after-revision", x, okEdges(rv[0]), "ok(Revision)")
 					paired := false
-					for _, y := range cfgx.Calls(rec, func(ci ssa.CallInstruction) bool { return strings.HasSuffix(cfgx.CalleeName(ci), ".SetCurrentRevision") }) {
+					for _, y := range cfgx.Calls(rec, func(ci ssa.CallInstruction) bool {
+						return strings.HasSuffix(cfgx.CalleeName(ci), ".SetCurrentRevision")
+					}) {
 						if y.Block() == x.Block() {
 							paired = true
 						}
